@@ -17,6 +17,7 @@ import (
 	"io"
 	"math/rand"
 	"strconv"
+	"strings"
 
 	amd_manifest "github.com/linuxboot/fiano/pkg/amd/manifest"
 	"github.com/linuxboot/fiano/pkg/amd/psb"
@@ -123,6 +124,21 @@ func amdRegionSeed(o amdSeedOpt) ([]byte, []core.Field, []Rel) {
 	return b, fs, rs
 }
 
+// amdIsSeed: the unmodified region of one of the seeds with this pre / total (they are always sent to the model)
+func amdIsSeed(in []byte, args map[string]string) bool {
+	pre, _ := strconv.Atoi(args["pre"])
+	total, _ := strconv.Atoi(args["total"])
+	for _, o := range []amdSeedOpt{{pre: 0, total: 0x60000, efsPSP: true, efsBIOS: 0}, {pre: 0x1000, total: 0x61000, efsPSP: true, efsBIOS: 2},
+		{pre: 0, total: 0x60000, efsPSP: false, efsBIOS: -1}} {
+		if o.pre == pre && o.total == total {
+			if b, _, _ := amdRegionSeed(o); bytes.Equal(b, in) {
+				return true
+			}
+		}
+	}
+	return false
+}
+
 func amdImage(in []byte, args map[string]string) []byte {
 	pre, _ := strconv.Atoi(args["pre"])
 	total, _ := strconv.Atoi(args["total"])
@@ -178,39 +194,56 @@ func init() {
 			}
 			pf := fw.PSPFirmware()
 			hits := 0
+			var x []string // what every entry function returned, in the order of Driver/C20.lean amdPipelineG
+			res := func(n int, err error) {
+				if err != nil {
+					x = append(x, "E")
+				} else {
+					x = append(x, strconv.Itoa(n))
+				}
+			}
 			for _, level := range []uint{1, 2} {
 				for _, id := range []amd_manifest.PSPDirectoryTableEntryType{0x00, 0x12, 0x50, 0x0a} {
-					if _, err := psb.ExtractPSPEntry(fw, level, id); err == nil {
+					b, err := psb.ExtractPSPEntry(fw, level, id)
+					if err == nil {
 						hits++
 					}
+					res(len(b), err)
 					_, _ = psb.DumpPSPEntry(fw, level, id, io.Discard)
 					if e, err := psb.GetPSPEntry(pf, level, id); err == nil {
 						n := int(e.Size)
 						if n > 1<<20 {
 							n = 16 // a replacement of the wrong size: refused
 						}
-						_, _ = psb.PatchPSPEntry(fw, level, id, bytes.NewReader(make([]byte, n)), io.Discard)
+						res(psb.PatchPSPEntry(fw, level, id, bytes.NewReader(make([]byte, n)), io.Discard))
+					} else {
+						x = append(x, "S")
 					}
 				}
 				for _, id := range []amd_manifest.BIOSDirectoryTableEntryType{0x62, 0x05, 0x07} {
 					for _, inst := range []uint8{0, 1} {
-						if _, err := psb.ExtractBIOSEntry(fw, level, id, inst); err == nil {
+						b, err := psb.ExtractBIOSEntry(fw, level, id, inst)
+						if err == nil {
 							hits++
 						}
+						res(len(b), err)
 						_, _ = psb.DumpBIOSEntry(fw, level, id, inst, io.Discard)
 						if e, err := psb.GetBIOSEntry(pf, level, id, inst); err == nil {
 							n := int(e.Size)
 							if n > 1<<20 {
 								n = 16
 							}
-							_, _ = psb.PatchBIOSEntry(fw, level, id, inst, bytes.NewReader(make([]byte, n)), io.Discard)
+							res(psb.PatchBIOSEntry(fw, level, id, inst, bytes.NewReader(make([]byte, n)), io.Discard))
+						} else {
+							x = append(x, "S")
 						}
 					}
 				}
 			}
 			for _, d := range psb.AllDirectoryTypes() {
 				for _, id := range []uint32{0x12, 0x62} {
-					_, _ = psb.GetEntries(pf, d, id)
+					rs, err := psb.GetEntries(pf, d, id)
+					res(len(rs), err)
 				}
 			}
 			_, _ = psb.IsPSBEnabled(fw)
@@ -220,7 +253,42 @@ func init() {
 			if hits > 0 {
 				sub = "entries"
 			}
-			return Res{Class: "ok", Sub: sub, Out: pad}
+			tab := func(found bool, off, length uint64, n int) string {
+				if !found {
+					return "-"
+				}
+				return fmt.Sprintf("%d+%d/%d", off, length, n)
+			}
+			p1, p2, b1, b2 := "-", "-", "-", "-"
+			if t := pf.PSPDirectoryLevel1; t != nil {
+				p1 = tab(true, pf.PSPDirectoryLevel1Range.Offset, pf.PSPDirectoryLevel1Range.Length, len(t.Entries))
+			}
+			if t := pf.PSPDirectoryLevel2; t != nil {
+				p2 = tab(true, pf.PSPDirectoryLevel2Range.Offset, pf.PSPDirectoryLevel2Range.Length, len(t.Entries))
+			}
+			if t := pf.BIOSDirectoryLevel1; t != nil {
+				b1 = tab(true, pf.BIOSDirectoryLevel1Range.Offset, pf.BIOSDirectoryLevel1Range.Length, len(t.Entries))
+			}
+			if t := pf.BIOSDirectoryLevel2; t != nil {
+				b2 = tab(true, pf.BIOSDirectoryLevel2Range.Offset, pf.BIOSDirectoryLevel2Range.Length, len(t.Entries))
+			}
+			sig := fmt.Sprintf("ok:efs=%d;p1=%s;p2=%s;b1=%s;b2=%s;x=%s", pf.EmbeddedFirmwareRange.Offset, p1, p2, b1, b2,
+				strings.Join(x, ","))
+			return Res{Class: "ok", Sub: sub, Out: pad, MCls: sig}
+		},
+		// the model runs on the whole (mostly zero) image: ~0.1 s per 384 KiB case in the compiled driver, so only
+		// the seeds, the length-relative mutants and a digest-chosen sixth of the rest are sent to it
+		Model: func(in []byte, args map[string]string, res Res) string {
+			img := amdImage(in, args)
+			if len(img) > 0x62000 {
+				return ""
+			}
+			if core.FNV(in)%6 != 0 && !amdIsSeed(in, args) {
+				return ""
+			}
+			pre, _ := strconv.Atoi(args["pre"])
+			total, _ := strconv.Atoi(args["total"])
+			return fmt.Sprintf("amd.firmware %s %d %d", core.Hex(in), pre, total)
 		},
 		Quick: 700,
 	})
@@ -252,29 +320,33 @@ func init() {
 		},
 		Run: func(in []byte, _ map[string]string) Res {
 			ok := 0
-			if _, _, err := amd_manifest.ParsePSPDirectoryTable(in); err == nil {
-				ok++
+			bits := ""
+			mark := func(err error) {
+				if err == nil {
+					ok++
+					bits += "1"
+				} else {
+					bits += "0"
+				}
 			}
-			if _, _, err := amd_manifest.ParseBIOSDirectoryTable(in); err == nil {
-				ok++
-			}
-			if _, _, err := amd_manifest.FindPSPDirectoryTable(in); err == nil {
-				ok++
-			}
-			if _, _, err := amd_manifest.FindBIOSDirectoryTable(in); err == nil {
-				ok++
-			}
-			if _, _, err := amd_manifest.ParseEmbeddedFirmwareStructure(bytes.NewReader(in)); err == nil {
-				ok++
-			}
-			if _, _, err := amd_manifest.FindEmbeddedFirmwareStructure(amd_manifest.FirmwareImage(in)); err == nil {
-				ok++
-			}
+			_, _, err := amd_manifest.ParsePSPDirectoryTable(in)
+			mark(err)
+			_, _, err = amd_manifest.ParseBIOSDirectoryTable(in)
+			mark(err)
+			_, _, err = amd_manifest.FindPSPDirectoryTable(in)
+			mark(err)
+			_, _, err = amd_manifest.FindBIOSDirectoryTable(in)
+			mark(err)
+			_, _, err = amd_manifest.ParseEmbeddedFirmwareStructure(bytes.NewReader(in))
+			mark(err)
+			_, _, err = amd_manifest.FindEmbeddedFirmwareStructure(amd_manifest.FirmwareImage(in))
+			mark(err)
 			if ok == 0 {
-				return Res{Class: "err"}
+				return Res{Class: "err", MCls: "t:" + bits}
 			}
-			return Res{Class: "ok", Sub: "parsers=" + itoa(ok)}
+			return Res{Class: "ok", Sub: "parsers=" + itoa(ok), MCls: "t:" + bits}
 		},
+		Model: hexReq("amd.tables"),
 		Quick: 900,
 	})
 }
